@@ -83,6 +83,7 @@ struct Opts {
     bool udq = true;
     bool network = true;
     bool geoModifiers = true;
+    bool exoticRunspec = false;     // random optional phases, RUNSPEC options and RPTSOL/RPTRST mnemonics (rarely used flag bits)
     bool restartSafeOnly = false;   // restrict to the keyword set the restart machinery supports (C05)
     int unitSystem = -1;            // -1 random, 0 METRIC, 1 FIELD, 2 LAB
     bool histWells = true;
@@ -103,6 +104,7 @@ struct Model {
     bool hasNetwork = false, hasLiftOpt = false, hasVfp = false, hasGuiderat = false;
     std::vector<int> vfpIds;
     std::string summarySection;     // extra SUMMARY keywords
+    std::string runspecExtra, solutionExtra;   // optional phases / options / report requests (Opts::exoticRunspec)
     std::string staticPart() const;
     std::string scheduleText(size_t nsteps = (size_t)-1) const;
     std::string text() const { return staticPart() + "SCHEDULE\n" + scheduleText(); }
@@ -125,7 +127,7 @@ inline std::string Model::staticPart() const {
     s << "PROPS\nDENSITY\n 860 1033 0.85 /\nPVTW\n 277 1.03 4.0E-5 0.3 0 /\nROCK\n 277 4.8E-5 /\n";
     s << "SWOF\n 0.2 0 1 0\n 0.5 0.2 0.3 0\n 1.0 1.0 0 0 /\nSGOF\n 0 0 1 0\n 0.4 0.3 0.2 0\n 0.8 1 0 0 /\n";
     s << "PVDG\n 20 0.06 0.015\n 100 0.012 0.017\n 400 0.004 0.025 /\nPVTO\n 20 50 1.15 1.2\n 100 1.14 1.3 /\n 100 150 1.4 0.9\n 300 1.35 1.0 /\n/\n";
-    s << "REGIONS\nFIPNUM\n " << n << "*1 /\nSOLUTION\nEQUIL\n 2000 200 2100 0 1900 0 1 /\nRSVD\n 1000 100\n 3000 100 /\nSUMMARY\nFOPR\nFOPT\nWOPR\n/\nWBHP\n/\nGOPR\n/\n" << summarySection << "\n";
+    s << "REGIONS\nFIPNUM\n " << n << "*1 /\nSOLUTION\nEQUIL\n 2000 200 2100 0 1900 0 1 /\nRSVD\n 1000 100\n 3000 100 /\n" << solutionExtra << "SUMMARY\nFOPR\nFOPT\nWOPR\n/\nWBHP\n/\nGOPR\n/\n" << summarySection << "\n";
     return s.str();
 }
 
@@ -154,6 +156,14 @@ public:
         }
         m.hasNetwork = opt.network && rng.chance(0.3);
         M = &m;
+        if (opt.exoticRunspec) {
+            // each independently: phases beyond oil/gas/water, options held in small flag sets, report mnemonics
+            static const char* RS[] = {"BRINE\n", "SOLVENT\n", "POLYMER\n", "FOAM\n", "ENDSCALE\n 'NODIR' 'REVERS' /\n", "ENDSCALE\n 'DIRECT' 'IRREVERS' /\n",
+                                       "NOSIM\n", "FMTOUT\n", "FMTIN\n", "NONNC\n", "GRIDOPTS\n 'YES' /\n", "TRACERS\n 1 1 1 /\n", "SATOPTS\n 'DIRECT' /\n", "MSGFILE\n 1 /\n"};
+            for (const char* k : RS) if (rng.chance(0.2)) { if (std::string(k).rfind("ENDSCALE", 0) == 0 && m.runspecExtra.find("ENDSCALE") != std::string::npos) continue; m.runspecExtra += k; }
+            static const char* FIP[] = {"FIP=1", "FIP=2", "FIP=3", "FIPFOAM=2", "FIPPLY=2", "FIPRESV", "FIPSOL=2", "FIPTEMP=2", "FIPSURF=2", "FIPTR=2", "FIPVE", "RESTART=2", "PRES", "SOIL", "SWAT"};
+            if (rng.chance(0.6)) { m.solutionExtra += "RPTSOL\n"; for (const char* f : FIP) if (rng.chance(0.3)) m.solutionExtra += std::string(" ") + f; m.solutionExtra += " /\n"; }
+        }
         int nsteps = opt.minSteps + (int)rng.below(opt.maxSteps - opt.minSteps + 1);
         // groups: node groups N* (may hold groups only) and well groups G* (hold wells only; the library refuses mixing)
         int nn = (int)rng.below(3);
